@@ -239,12 +239,13 @@ example : (exN.experts[0]?.getD default).pk = none ∧ exN.panicCountdown = none
 /-! ## (f) `observability_change` -/
 
 /-- The node stopped being observed: all callbacks will fire at the next recompute, the
-invalid-children count restarts from 0; one note is logged. -/
+invalid-children count restarts from 0; one note is logged (`Xp.obsNote er b s` =
+`.note "obschange n<node> <b> stab=<is the engine stabilising>"`). -/
 theorem observability_false (e : Nat) (s : State) (er : ExpertRec) (he : s.experts[e]? = some er)
     (hpk : er.pk = none) :
     (observabilityChange e false).run.run s =
       (.ok (), putExpert e { er with willFireAllCallbacks := true, numInvalidChildren := 0 }
-        { s with log := .note s!"obschange n{er.node} {false}" :: s.log }) :=
+        { s with log := obsNote er false s :: s.log }) :=
   observabilityChange_false_run he hpk
 
 example : exN'.experts[0]? = some (exN'.experts[0]?.getD default) ∧
@@ -265,10 +266,16 @@ example : ({ (default : ExpertRec) with pk := some (0, none) }).pk.isNone = fals
 theorem observability_true (e : Nat) (s : State) (er : ExpertRec) (he : s.experts[e]? = some er)
     (hpk : er.pk = none) :
     (observabilityChange e true).run.run s =
-      (.ok (), { s with log := .note s!"obschange n{er.node} {true}" :: s.log }) :=
+      (.ok (), { s with log := obsNote er true s :: s.log }) :=
   observabilityChange_true_run he hpk
 
 example : ((observabilityChange 0 true).run.run exN').2.experts = exN'.experts := rfl
+/-- the text of the note -/
+theorem obs_note_eq (er : ExpertRec) (b : Bool) (s : State) :
+    obsNote er b s = .note s!"obschange n{er.node} {b} stab={s.status != .notStabilising}" := rfl
+
+example : (match obsNote (exN'.experts[0]?.getD default) false exN' with | .note t => t | _ => "") =
+    "obschange n2 false stab=true" := by decide
 
 /-! ## (e) edge callbacks -/
 
